@@ -627,6 +627,7 @@ pub fn c05(run: &mut Run) {
     run.require_label("c05_model", "resume", 0.1);
     run.require_label("c05_model", "blend_after_pause_discarded", 0.05);
     run.require_label("c05_model", "pause", 0.2);
+    crate::fuzzdrv::campaign(run, "fz_c05", 1_200_000);
     // exhaustive enumeration of all histories up to a depth over a 9-letter alphabet
     let depth: u32 = if run.tier == mv_engine::Tier::Quick { 6 } else { 8 };
     let alphabet: Vec<AOp> = vec![
@@ -680,7 +681,7 @@ pub fn c07_judge(c: &HistCase, obs: &mut Obs) -> Result<(), String> {
     Ok(())
 }
 
-fn c07_strategy() -> impl Strategy<Value = HistCase> {
+pub fn c07_strategy() -> impl Strategy<Value = HistCase> {
     // more ToEnd steps, fewer transitions, so that histories cross the end instant
     let op = prop_oneof![
         4 => step_strategy().prop_map(AOp::Adv),
